@@ -114,4 +114,13 @@ theorem exactUn_not (y : Int) (prec : Nat) : exactUn .not y prec = if prec = 0 t
 theorem bind_ok (x : Int) (f : Int → Verdict) : (Verdict.ok x).bind f = f x := rfl
 theorem bind_cannot (f : Int → Verdict) : Verdict.cannot.bind f = .cannot := rfl
 
+/-! (forces the equation lemmas of these definitions to be generated in this module) -/
+theorem kind_typed_untyped : Kind.typed .untypedInt = false := by simp [Kind.typed]
+theorem kind_typed_int : Kind.typed .int = true := by simp [Kind.typed]
+theorem bind_divzero (f : Int → Verdict) : Verdict.divzero.bind f = .divzero := by simp [Verdict.bind]
+theorem bind_ok' (x : Int) (f : Int → Verdict) : (Verdict.ok x).bind f = f x := by simp [Verdict.bind]
+theorem checkAssign_def (word : Nat) (k : Kind) (x : Int) :
+    checkAssign word k x = if representableConst word x k then .ok x else .overflow := by unfold checkAssign; rfl
+theorem exactUn_pos (y : Int) (p : Nat) : exactUn .pos y p = y := by simp [exactUn]
+
 end WaVerif.C15
